@@ -94,6 +94,8 @@ import (
 	"strconv"
 	"sync"
 
+	"golang.org/x/net/idna"
+
 	"mellium.im/xmpp/internal/discover"
 	"mellium.im/xmpp/jid"
 )
@@ -168,10 +170,14 @@ func (d *Dialer) DialServer(ctx context.Context, network string, addr jid.JID, s
 }
 
 func (d *Dialer) dial(ctx context.Context, network string, addr jid.JID, server string) (net.Conn, error) {
+	// The domainpart of a JID is kept in its Unicode form (U-labels), DNS and TLS
+	// (SNI, certificate names) use the ASCII form (A-labels) of internationalized
+	// domain names.
+	server = toASCII(server)
 	cfg := d.TLSConfig
 	if cfg == nil {
 		cfg = &tls.Config{
-			ServerName: addr.Domainpart(),
+			ServerName: toASCII(addr.Domainpart()),
 			MinVersion: tls.VersionTLS12,
 		}
 		// XEP-0368
@@ -293,4 +299,14 @@ func connType(useTLS, s2s bool) string {
 		return "xmpps-client"
 	}
 	return "xmpp-client"
+}
+
+// toASCII converts an internationalized domain name for lookup as described in
+// RFC 5891 §5. Anything that is not a domain name (eg. an IP address) is
+// returned unchanged.
+func toASCII(domain string) string {
+	if ascii, err := idna.Lookup.ToASCII(domain); err == nil && ascii != "" {
+		return ascii
+	}
+	return domain
 }
